@@ -12,6 +12,8 @@ def run(c):
     A.obl_reload(c, ct, thorough=(c.tier == "thorough"), budget_s=1200)
     obl_context.obl_context(c, thorough=(c.tier == "thorough"), budget_s=600)
     obl_context.obl_data(c, budget_s=300)
+    # the method object and its memo survive an option change (update_engine, same layout): the switches are read when a word is shown
+    A.obl_reconfig(c, ct, thorough=(c.tier == "thorough"), budget_s=900)
     # the refresh (update_engine) only re-reads the auto-correct list: everything else the constructor loads must not depend on the options
     obl_phonetic.obl_userfiles(c, budget_s=600)
     c.assume("context layer: a method object made by the constructor for a configuration, or told to refresh with it (update_engine), stands for "
